@@ -2,7 +2,7 @@
 from vf import gen, ref
 from vf.core import exc_desc
 from vf.lazy import ck, libx, common
-from vf.monitors import algos
+from vf.monitors import algos, large
 
 PROP = "C13"
 TECHNIQUE = ('runtime monitoring of Copeland (consensus, scores, victory/equality/defeat counts) against the reference cost table; same-shape successor datasets on the shared object')
@@ -18,12 +18,21 @@ CRASH_IS_VIOLATION = False
 
 def plan(tier, seed):
     if tier == "quick":
-        return [{"n_cases": 330, "mode": "A", "hashseed": i % 3} for i in range(7)] + [{"n_cases": 200, "mode": "B"}]
+        return [{"n_cases": 330, "mode": "A", "hashseed": i % 3} for i in range(7)] + [{"n_cases": 200, "mode": "B"}] + \
+               [{"n_cases": 13, "mode": "A", "params": {"xlarge": "sweep", "offset": 13 * i}, "hashseed": i} for i in range(2)] + \
+               [{"n_cases": 4, "mode": "A", "params": {"xlarge": prof}, "hashseed": i % 2} for i, prof in enumerate(["tall", "cells"])]
     return [{"n_cases": 5000, "mode": "A", "hashseed": i % 4} for i in range(12)] + \
-           [{"n_cases": 3000, "mode": "B", "hashseed": i} for i in range(2)]
+           [{"n_cases": 3000, "mode": "B", "hashseed": i} for i in range(2)] + \
+           [{"n_cases": 26, "mode": "A", "params": {"xlarge": "sweep", "offset": 13 * i}, "hashseed": i} for i in range(4)] + \
+           [{"n_cases": 12, "mode": "A", "params": {"xlarge": prof}, "hashseed": i} for i, prof in enumerate(["tall", "cells", "heavy"])]
 
 
 def gen_case(rng, ctx):
+    if ctx.params.get("xlarge"):
+        case = large.gen_large(rng, profiles=[ctx.params["xlarge"]], schemes="S1 S1 S2 S3 S6 S15",
+                               index=ctx.index + ctx.params.get("offset", 0))
+        case["dcls"] = "xlarge"
+        return case
     big = rng.random() < 0.1
     cls, ds = gen.dataset(rng, classes="D1 D2 D3 D3 D4 D5 D6 D7 D7 D9 D21", nmax=15 if big else 8, mmax=7)
     ds = libx.normalise_raw(ds)
@@ -31,10 +40,58 @@ def gen_case(rng, ctx):
     return {"ds": ds, "scheme": sch, "dcls": cls, "scls": scls}
 
 
+def check_xlarge(case, ctx):
+    """size classes of vf/monitors/large.py: consensus, scores and counts against the vectorised reference"""
+    lc = large.Context(case)
+    sub = large.slim(case)
+    common.set_case(ctx, sub)
+    ctx.unit()
+    st, cons = large.run("Copeland", lc, True, 0)
+    if st != "ok":
+        ctx.violation(f"C13/raises-{type(cons).__name__}", f"Copeland raised {exc_desc(cons)} on {case['n']} elements x "
+                      f"{case['m']} rankings", sub)
+        return
+    ctx.count("accepted")
+    ctx.count("xlarge_judged")
+    ctx.count("xlarge:" + case["profile"])
+    if case["profile"] == "sweep":
+        ctx.setadd("xlarge_sizes", case["n"])
+    score, v, e, d = lc.refnp.copeland(lc.table)
+    expected = lc.refnp.groups_by(score, lc.elems, decreasing=True)
+    try:
+        got = libx.raw_ranking(cons.consensus_rankings[0])
+        lib_scores = {x.value: float(val) for x, val in cons.copeland_scores.items()}
+        lib_ved = {x.value: [float(y) for y in val] for x, val in cons.copeland_victories.items()}
+    except Exception as exc:      # pylint: disable=broad-except
+        ctx.violation(f"C13/features-unreadable-{type(exc).__name__}", "consensus features not readable: " + exc_desc(exc), sub)
+        return
+    if ref.canon(got) != ref.canon(expected):
+        k = next((i for i, (a, b) in enumerate(zip(got, expected)) if set(a) != set(b)), min(len(got), len(expected)))
+        ctx.violation("C13/not-ordered-by-decreasing-copeland-score", f"{case['n']} elements x {case['m']} rankings: the "
+                      f"consensus ({len(got)} buckets) differs from the ranking by decreasing score ({len(expected)} buckets) "
+                      f"from bucket {k} on", sub, observed=got[k:k + 2], expected=expected[k:k + 2])
+    want_scores = dict(zip(lc.elems, score.tolist()))
+    if set(lib_scores) != set(lc.elems) or any(lib_scores[x] != want_scores[x] for x in lc.elems):
+        bad = [x for x in lc.elems if lib_scores.get(x) != want_scores[x]][:3]
+        ctx.violation("C13/reported-scores-wrong", f"copeland_scores differ from victories + equalities/2 for e.g. {bad}", sub,
+                      observed={str(x): lib_scores.get(x) for x in bad}, expected={str(x): want_scores[x] for x in bad})
+    want_ved = {x: [int(a), int(b), int(c)] for x, a, b, c in zip(lc.elems, v, e, d)}
+    if set(lib_ved) != set(lc.elems):
+        ctx.violation("C13/victories-feature-wrong-keys", "copeland_victories keys differ from the universe", sub)
+    else:
+        bad = [x for x in lc.elems if [int(y) for y in lib_ved[x]] != want_ved[x]][:3]
+        if bad:
+            ctx.violation("C13/victory-equality-defeat-counts-wrong", f"e.g. element {bad[0]!r}: reported {lib_ved[bad[0]]}, "
+                          f"expected {want_ved[bad[0]]}", sub, observed=lib_ved[bad[0]], expected=want_ved[bad[0]])
+    ctx.nontrivial({"n": case["n"], "m": case["m"], "d": gen.digest(case["ds"]), "scheme": case["scheme"]})
+
+
 def check_case(case, ctx):
     """the case's dataset, then a successor of the same shape (rankings reversed, elements renamed cyclically) built
     right after the first dataset and its consensus were dropped, so that it is likely to reuse their addresses; both
     are aggregated by the same CopelandMethod object (algos.run_config keeps one per process)"""
+    if case.get("dcls") == "xlarge":
+        return check_xlarge(case, ctx)
     judge(case, ctx, case["ds"], successor=False)
     ds = case["ds"]
     elems = ref.universe(ds)
@@ -110,7 +167,10 @@ def reach(counters, tier, info):
     out = []
     for name, key, need in [("consensuses judged", "accepted", 2000 * k), ("cases with at least one equality", "with_equality", 500 * k),
                             ("cases with a pair never ranked together", "unranked_driven", 300 * k),
-                            ("same-shape successor datasets aggregated by the same object", "same_shape_successors", 1500 * k)]:
-        v = counters.get(key, 0)
+                            ("same-shape successor datasets aggregated by the same object", "same_shape_successors", 1500 * k),
+                            ("datasets of 63-1025 elements / 40-257 rankings judged (vectorised reference)", "xlarge_judged",
+                             30 if tier == "quick" else 100),
+                            ("distinct sizes among gen.THRESHOLD_SIZES met", "xlarge_sizes", len(gen.THRESHOLD_SIZES))]:
+        v = counters.get(key, 0) if key != "xlarge_sizes" else len(info["sets"].get("xlarge_sizes", ()))
         out.append({"name": name, "observed": v, "required": need, "ok": v >= need})
     return out
